@@ -93,6 +93,11 @@ impl Out {
         }
         self.ev(base)
     }
+    /// pushes what was recorded so far to the file (drivers that run risky calls in-process flush a "begin"
+    /// marker before each call so that a killed process still tells which call it was in)
+    pub fn flush(&mut self) {
+        self.w.flush().unwrap();
+    }
     pub fn finish(mut self) -> usize {
         self.w.flush().unwrap();
         self.n
